@@ -30,6 +30,19 @@ func c01Gen(c *vfCtx, emit func(c01Case)) {
 	snap := func(v string) vfCall { return vfCall{API: "snap", Val: v} }
 
 	// A: one test, one call, every body (incl. the 70 000-byte line)
+	if c.thorough() {
+		// plus every two-line body over the near-miss alphabet
+		seenB := map[string]bool{}
+		for _, b := range bodies {
+			seenB[b] = true
+		}
+		for _, b := range vfBodies(vfSigmaNear, 2, 0) {
+			if !seenB[b] {
+				bodies = append(bodies, b)
+			}
+		}
+		c.bound("near_miss_tokens", len(vfSigmaNear)-len(vfSigmaFull))
+	}
 	for _, b := range bodies {
 		emit(c01Case{Family: "A1", Tests: []vfTestExec{{Name: "TestA", Calls: []vfCall{snap(b)}}}})
 	}
@@ -42,7 +55,7 @@ func c01Gen(c *vfCtx, emit func(c01Case)) {
 	pairBodies := []string{}
 	{
 		seen := map[string]bool{}
-		for _, b := range append(vfBodies(sigma, 1, 2), vfBodies(vfSigmaCore, 2, 1)...) {
+		for _, b := range append(vfBodies(vfSigmaNear, 1, 2), vfBodies(vfSigmaCore, 2, 1)...) {
 			if !seen[b] {
 				seen[b] = true
 				pairBodies = append(pairBodies, b)
